@@ -45,7 +45,7 @@ class MTSP(Adapter):
             for variant in ("minmax", "sum"):
                 # m = 1 (plain TSP from the depot) .. m = N (every customer its own sub-tour) and
                 # one more agent than customers (the bound on depot returns is not reachable)
-                for m in range(1, min(n, 3) + 1 if n > 3 else n + 2):
+                for m in (range(1, n + 2) if n == 3 else (1, 2, 3)):
                     insts.append({"N": n, "m": m, "D": D, "variant": variant, "pts": pts, "grid": g})
         return with_ids(insts)
 
